@@ -14,6 +14,7 @@ import json
 import os
 import shutil
 import tempfile
+import time
 
 import common
 
@@ -254,30 +255,33 @@ def tracked_coeffs(case, nsteps):
     return out
 
 
-def coq_case(case, res, expected_steps):
+def coq_case(case, res, expected_steps, tag):
+    """Top-level Definitions (a `let ... in` chain makes Coq's elaboration take minutes once a bound tree is used
+    twice), then one Eval printing the per-step zdiff results."""
     lines = []
     for i, s in enumerate(res["states"]):
-        lines.append("let s%d := %s in" % (i, coq_state(s)))
+        lines.append("Definition %s_s%d : ttree ZRing := %s." % (tag, i, coq_state(s)))
     for i, o in enumerate(res["ops"]):
-        lines.append("let o%d := %s in" % (i, coq_op(o)))
-    prev = "s0"
+        lines.append("Definition %s_o%d : otree ZRing := %s." % (tag, i, coq_op(o)))
+    prev = "%s_s0" % tag
     names = []
     coeff = case["states"][0].get("coeff", 1)          # prefactor of the running state, as the library tracks it
     for k, step in enumerate(case["seq"][:len(res["results"])]):
         if step[0] == "add":
             cb = case["states"][step[1]].get("coeff", 1)
-            e = ("tadd ZRing %s s%d" % (prev, step[1])) if (coeff == 1 and cb == 1) else \
-                ("tadd_coeff ZRing (%d) (%d) %s s%d" % (coeff, cb, prev, step[1]))
+            e = ("tadd ZRing %s %s_s%d" % (prev, tag, step[1])) if (coeff == 1 and cb == 1) else \
+                ("tadd_coeff ZRing (%d) (%d) %s %s_s%d" % (coeff, cb, prev, tag, step[1]))
             coeff = 1
         elif step[0] == "scale":
             e = "tscale ZRing (%d) %s" % (step[1], prev)
         else:
-            e = "tapply ZRing o%d %s" % (step[1], prev)
-        lines.append("let r%d := frz (%s) in" % (k, e))
-        prev = "r%d" % k
+            e = "tapply ZRing %s_o%d %s" % (tag, step[1], prev)
+        prev = "%s_q%d" % (tag, k)
+        lines.append("Definition %s : ttree ZRing := frz (%s)." % (prev, e))
         names.append(prev)
-    lines.append(" ++ ".join("zdiff (tdump %s) [%s]" % (n, "; ".join(str(x) for x in e)) for n, e in zip(names, expected_steps)))
-    return "Eval vm_compute in (\n" + "\n".join(lines) + ").\n"
+    lines.append("Eval vm_compute in (" + " ++ ".join("zdiff (tdump %s) [%s]" % (n, "; ".join(str(x) for x in e))
+                                                       for n, e in zip(names, expected_steps)) + ").")
+    return "\n".join(lines) + "\n"
 
 
 REPRO = '''import sys, json
@@ -314,6 +318,8 @@ def run(ctx):
         "oracle only (no theorem): expectation via TTNEnviron, calc_1site/2site/1dof/2dof RDMs, entropies, bond entropies, from_mps on Mps objects (from_mps_dense is proved for the chain model of Model/Chain.v)",
         "the print_tree stub /verif/pylib/print_tree.py, CPython/NumPy/SciPy/opt_einsum",
     ]
+    tm = {}
+    t_ = time.time()
     # 1+2. Coq
     ok_build, log = ctx.coq_make(["Proofs/TtnsProofs.vo"])
     ok_props = False
@@ -322,6 +328,8 @@ def run(ctx):
     else:
         ctx.obligations.append({"name": "C11 (build of Model/Ttns.v + Proofs/TtnsProofs.v)", "file": "Proofs/TtnsProofs.v", "ok": False, "assumptions": None})
 
+    tm["coq build+props"] = time.time() - t_
+    t_ = time.time()
     # 3. exact tie
     n_tie = 1500 if thorough else 150
     cases = []
@@ -351,6 +359,8 @@ def run(ctx):
     rs = ctx.impl_par("c11_tie.py", [{"cases": sh, "out": os.path.join(tmpd, "tie_%d.json" % i)} for i, sh in enumerate(shards)],
                       timeout=3000 if thorough else 1200)
     rs = [_from_file(x) for x in rs]
+    tm["tie impl"] = time.time() - t_
+    t_ = time.time()
     tie_bad = []
     results = {}
     for si, (rc, res, out) in enumerate(rs):
@@ -395,7 +405,7 @@ def run(ctx):
                 e1 = []
                 dump_expected(t, e1)
                 es.append(e1)
-            texts.append(coq_case(case, r, es))
+            texts.append(coq_case(case, r, es, "c%d" % ci))
             exp.append((case, r, [x for e1 in es for x in e1]))
         if texts:
             items.append(("tie_%d" % si, MODEL_IMPORT + "\n".join(texts)))
@@ -445,14 +455,16 @@ def run(ctx):
     ctx.notes.append("tie: %d cases compared exactly, %d skipped (TTNS.random could not build the sector / size cap), malformed: %d rejected, %d accepted by the library %s"
                      % (evals, skipped, rejected_mal, len(accepted_mal), accepted_mal[:2]))
 
+    tm["tie coq"] = time.time() - t_
+    t_ = time.time()
     # 4. dense oracle (always)
-    n_or = 1200 if thorough else 110
+    n_or = 1200 if thorough else 80
     specs = [gen_oracle_spec(rng, n) for n in (1, 1, 2, 2, 3)]
     for o in (all_parent_arrays(5) if thorough else []):
         specs.append(gen_oracle_spec(rng, order=o))
     while len(specs) < n_or:
         specs.append(gen_oracle_spec(rng))
-    mps_specs = [gen_mps_spec(rng) for _ in range(200 if thorough else 16)]
+    mps_specs = [gen_mps_spec(rng) for _ in range(200 if thorough else 14)]
     nsh = 14
     payloads = [{"specs": specs[i::nsh], "mps": mps_specs[i::nsh], "out": os.path.join(tmpd, "or_%d.json" % i)} for i in range(nsh)]
     ro = ctx.impl_par("c11_oracle.py", payloads, timeout=3000 if thorough else 1200)
@@ -477,6 +489,8 @@ def run(ctx):
                      "%d logged svd_qn factorisations inside canonicalise/compress checked against the witness contract M = Q.V^T"
                      % (or_checked, or_specs, or_skipped, len(or_fail), n_contract))
 
+    tm["oracle"] = time.time() - t_
+    ctx.notes.append("wall seconds per phase: " + ", ".join("%s %.0f" % kv for kv in tm.items()))
     # 5. verdict
     classes = {}
     for f in or_fail:
